@@ -390,13 +390,20 @@ pub fn run(a: &Args) -> i32 {
                 }
                 let got = canon_numbers(&body["variables"]);
                 let want = canon_numbers(&v.expected);
-                if got != want {
+                // an operation without variables: "an object whose keys are exactly the declared names" is `{}`; the unit
+                // struct of the current code writes `null`, which every server treats alike: both are accepted
+                let no_vars = v.sent.is_null() && v.expected.is_null();
+                if got != want && !(no_vars && got == json!({})) {
                     rep.fail("variables-not-as-declared", case_json(json!({"expected_variables": want, "got": got})));
                 }
                 Reply::Ok(body["variables"].clone())
             }
             Reply::Err(e) => {
-                rep.fail("valid-assignment-not-expressible", case_json(json!({"error": e})));
+                // (for an operation without variables the harness can only offer `null`, which is how the current unit
+                // struct is read: a refusal there is a broken tie, reported below, not a refusal of a valid assignment)
+                if !(v.sent.is_null() && v.expected.is_null()) {
+                    rep.fail("valid-assignment-not-expressible", case_json(json!({"error": e})));
+                }
                 Reply::Err(e.clone())
             }
             Reply::Other(o) => {
